@@ -57,6 +57,12 @@ def gen_cases(tier, seed):
             g = rnd.choice([2 ** e, max(1, 2 ** e - 1), 2 ** e + 1,
                             rnd.randint(1, 2 ** e)])
             grid.append(min(g, 2 ** 21))
+        if rnd.random() < 0.3:
+            # the same number of bits on all three axes (up to 21 each = 63 bits)
+            e = rnd.choice([4, 8, 10, 11, 12, 16, 20, 21])
+            grid = [rnd.randint(2 ** (e - 1) + 1, 2 ** e) for _ in range(3)]
+            if rnd.random() < 0.5:
+                grid[rnd.randrange(3)] = 2 ** e
         cases.append({"kind": "grid", "grid": grid, "chunk": rnd.choice([1, 2, 32, 64]),
                       "rem": [rnd.random() for _ in range(3)], "mode": "sample",
                       "pseed": rnd.randrange(2 ** 32),
@@ -192,6 +198,7 @@ def run_grid(case):
     ntriv = (grid[0] * grid[1] * grid[2]) >= 2
     obs["axes_dropping_out_at_different_levels"] = int(len(set(nb)) > 1)
     obs["power_of_two_axis"] = int(any(g > 1 and g & (g - 1) == 0 for g in grid))
+    obs["equal_bits_beyond_10_per_axis"] = int(len(set(nb)) == 1 and nb[0] > 10)
     return {"violations": v[:25], "evals": len(positions) + obs["rejection_probes"],
             "distinct_disjoint": len(positions) if ntriv else 0, "obs": obs,
             "sample": {"kind": "grid", "grid": grid, "chunk": chunk, "sizes": sizes,
@@ -263,6 +270,7 @@ def gates(obs, tier):
         "axes_drop_out_at_different_levels": obs.get(
             "axes_dropping_out_at_different_levels", 0) > 0,
         "power_of_two_grids": obs.get("power_of_two_axis", 0) > 0,
+        "cubic_grids_beyond_1024_per_axis": obs.get("equal_bits_beyond_10_per_axis", 0) > 0,
         "totals_beyond_64_bits": obs.get("total_bits_over_64", 0) > 0,
         "shard_bits_not_multiple_of_4": obs.get("shard_bits_not_multiple_of_4", 0) > 0,
     }
